@@ -170,7 +170,13 @@ def _len(interp, v: Any) -> Any:
 # ----------------------------------------------------------------------------- external calls
 
 
+NONDET_PREFIXES = ("random.", "time.", "uuid.", "secrets.", "os.getpid", "os.urandom", "os.environ", "os.getenv", "datetime.", "threading.get_ident", "builtins.id", "builtins.input")
+
+
 def call_ext(interp, name: str, args: list, kwargs: dict) -> Any:
+    if name.startswith(NONDET_PREFIXES) and name != "builtins.id":
+        interp.emit("nondet", what=name, arg=args)
+        return fresh_unknown(f"{name}()")
     fn = _EXT.get(name)
     if fn is not None:
         return fn(interp, args, kwargs)
